@@ -474,7 +474,117 @@ func ruleAbsenceIsNil(c *Ctx) {
 			}
 			return true
 		})
+		// variables bound by a type switch on a decoded value are decoded values too
+		ast.Inspect(fd.Body, func(n ast.Node) bool {
+			ts, ok := n.(*ast.TypeSwitchStmt)
+			if !ok {
+				return true
+			}
+			as, ok := ts.Assign.(*ast.AssignStmt)
+			if !ok || len(as.Rhs) != 1 {
+				return true
+			}
+			ta, ok := unparen(as.Rhs[0]).(*ast.TypeAssertExpr)
+			if !ok {
+				return true
+			}
+			if id, ok := unparen(ta.X).(*ast.Ident); ok && decoded[c.objOf(id)] {
+				for _, cl := range ts.Body.List {
+					if o := c.Info.Implicits[cl]; o != nil {
+						decoded[o] = true
+					}
+				}
+			}
+			return true
+		})
+		// values picked out of a decoded value (m[k], v.(T), v.f) are decoded values too
+		for changed := true; changed; {
+			changed = false
+			ast.Inspect(fd.Body, func(n ast.Node) bool {
+				as, ok := n.(*ast.AssignStmt)
+				if !ok || len(as.Rhs) != 1 {
+					return true
+				}
+				src := unparen(as.Rhs[0])
+				for {
+					switch v := src.(type) {
+					case *ast.IndexExpr:
+						src = unparen(v.X)
+						continue
+					case *ast.TypeAssertExpr:
+						src = unparen(v.X)
+						continue
+					case *ast.SelectorExpr:
+						src = unparen(v.X)
+						continue
+					}
+					break
+				}
+				rid, ok := src.(*ast.Ident)
+				if !ok || !decoded[c.objOf(rid)] || src == unparen(as.Rhs[0]) {
+					return true
+				}
+				if lid, ok := as.Lhs[0].(*ast.Ident); ok && lid.Name != "_" && c.objOf(lid) != nil && !decoded[c.objOf(lid)] {
+					decoded[c.objOf(lid)] = true
+					changed = true
+				}
+				return true
+			})
+		}
+		isDecodedSubject := func(x ast.Expr) bool {
+			for {
+				switch v := unparen(x).(type) {
+				case *ast.Ident:
+					return decoded[c.objOf(v)]
+				case *ast.SelectorExpr:
+					x = v.X
+				default:
+					return false
+				}
+			}
+		}
 		good, why := true, ""
+		recv := c.recvObj(fd)
+		// (b) the receiver is filled only when the decoded value differs from a zero constant
+		ast.Inspect(fd.Body, func(n ast.Node) bool {
+			as, ok := n.(*ast.AssignStmt)
+			if !ok {
+				return true
+			}
+			writesRecv := false
+			for _, l := range as.Lhs {
+				if p, ok := c.apath(l); ok && p.Root == recv {
+					writesRecv = true
+				}
+				if st, ok := unparen(l).(*ast.StarExpr); ok {
+					if id, ok := unparen(st.X).(*ast.Ident); ok && c.objOf(id) == recv {
+						writesRecv = true
+					}
+				}
+			}
+			if !writesRecv {
+				return true
+			}
+			for _, cl := range c.literalsAt(fd, as) {
+				be, ok := unparen(cl.e).(*ast.BinaryExpr)
+				if !ok || !(be.Op == token.NEQ && !cl.neg || be.Op == token.EQL && cl.neg) {
+					continue
+				}
+				x, y := unparen(be.X), unparen(be.Y)
+				if tvx, isC := c.Info.Types[x]; isC && tvx.Value != nil {
+					x, y = y, x
+				}
+				tv, ok := c.Info.Types[y]
+				if !ok || tv.Value == nil || !isDecodedSubject(x) {
+					continue
+				}
+				if zero := tv.Value.String(); zero == `""` || zero == "0" || zero == "false" {
+					good = false
+					why = c.pos(as.Pos()) + ": the receiver is only filled when " + exprString(cl.e) + ": a member that is present with the value " + zero + " is decoded as if it were absent"
+				}
+			}
+			return true
+		})
 		ast.Inspect(fd.Body, func(n ast.Node) bool {
 			rs, ok := n.(*ast.ReturnStmt)
 			if !ok || len(rs.Results) != 1 || !isNilIdent(c, rs.Results[0]) {
@@ -501,8 +611,7 @@ func ruleAbsenceIsNil(c *Ctx) {
 				if call, ok := x.(*ast.CallExpr); ok && c.isBuiltin(call, "len") && len(call.Args) == 1 {
 					x = unparen(call.Args[0])
 				}
-				id, ok := x.(*ast.Ident)
-				if !ok || !decoded[c.objOf(id)] {
+				if !isDecodedSubject(x) {
 					continue
 				}
 				zero := tv.Value.String()
